@@ -566,6 +566,12 @@ func (eng *Engine) callEffects(c *ssa.CallCommon, s *sorts, res *Effects, walk f
 	if eng.libraryFuncField(c.Value) != "" {
 		return
 	}
+	if targets, _ := eng.fieldFuncTargets(c.Value); len(targets) > 0 {
+		for _, t := range targets {
+			walk(t)
+		}
+		return
+	}
 	if eng.extFuncCall(c) {
 		return
 	}
@@ -844,6 +850,12 @@ func (eng *Engine) EventEffects(f *ssa.Function) (map[string]bool, bool) {
 					if eng.funcFieldContract(c.Value) != nil || eng.libraryFuncField(c.Value) != "" || eng.extFuncCall(c) {
 						continue
 					}
+					if targets, _ := eng.fieldFuncTargets(c.Value); len(targets) > 0 {
+						for _, t := range targets {
+							walk(t)
+						}
+						continue
+					}
 					res.all = true
 					res.why = append(res.why, fn.String()+": dynamic call "+c.String())
 				}
@@ -884,6 +896,14 @@ func (eng *Engine) EventEffectsString(fn *ssa.Function) string {
 // named function), or "anything" when the value's origin is not syntactically known.
 
 func (eng *Engine) isCallOnlyParam(p *ssa.Parameter) bool {
+	return eng.callOnly(p, map[*ssa.Parameter]bool{})
+}
+
+func (eng *Engine) callOnly(p *ssa.Parameter, seen map[*ssa.Parameter]bool) bool {
+	if seen[p] {
+		return true
+	}
+	seen[p] = true
 	if _, ok := p.Type().Underlying().(*types.Signature); !ok {
 		return false
 	}
@@ -894,14 +914,32 @@ func (eng *Engine) isCallOnlyParam(p *ssa.Parameter) bool {
 		switch u := r.(type) {
 		case *ssa.DebugRef:
 		case ssa.CallInstruction:
-			if u.Common().Value != p {
-				return false
-			}
 			if _, isGo := r.(*ssa.Go); isGo {
 				return false
 			}
 			if _, isDefer := r.(*ssa.Defer); isDefer {
 				return false
+			}
+			c := u.Common()
+			if c.Value == p {
+				for _, a := range c.Args {
+					if a == p {
+						return false
+					}
+				}
+				continue
+			}
+			// handed on to a module function that itself only calls it
+			callee := c.StaticCallee()
+			if callee == nil || callee.Blocks == nil || !eng.InModule(callee) {
+				return false
+			}
+			for i, a := range c.Args {
+				if a == p {
+					if i >= len(callee.Params) || !eng.callOnly(callee.Params[i], seen) {
+						return false
+					}
+				}
 			}
 		default:
 			return false
@@ -927,7 +965,7 @@ func (eng *Engine) argClosures(fn *ssa.Function, c *ssa.CallCommon, visit func(*
 			unknown()
 			continue
 		}
-		switch a := c.Args[j].(type) {
+		switch a := eng.seeThroughReturnsParam(c.Args[j]).(type) {
 		case *ssa.MakeClosure:
 			if f, ok := a.Fn.(*ssa.Function); ok {
 				visit(f)
@@ -945,6 +983,56 @@ func (eng *Engine) argClosures(fn *ssa.Function, c *ssa.CallCommon, visit func(*
 			unknown()
 		}
 	}
+}
+
+// seeThroughReturnsParam: a call of functions whose contract says "returnsparam p" (proved in their own units)
+// stands for the argument passed for p
+func (eng *Engine) seeThroughReturnsParam(v ssa.Value) ssa.Value {
+	for depth := 0; depth < 8; depth++ {
+		call, ok := v.(*ssa.Call)
+		if !ok {
+			return v
+		}
+		c := call.Common()
+		var targets []*ssa.Function
+		if c.IsInvoke() {
+			if !closedWorld(c.Value.Type()) {
+				return v
+			}
+			for _, t := range eng.Implementers(c.Value.Type().Underlying().(*types.Interface), typeName(c.Value.Type())) {
+				if m := eng.MethodOf(t, c.Method.Name(), c.Method.Pkg()); m != nil {
+					targets = append(targets, m)
+				}
+			}
+		} else if fn := c.StaticCallee(); fn != nil {
+			targets = []*ssa.Function{fn}
+		}
+		if len(targets) == 0 {
+			return v
+		}
+		var arg ssa.Value
+		for _, t := range targets {
+			fc := eng.ContractOf(t)
+			if fc == nil || strings.TrimSpace(fc.Flags["returnsparam"]) == "" {
+				return v
+			}
+			idx := -1
+			for i, p := range t.Params {
+				if p.Name() == strings.TrimSpace(fc.Flags["returnsparam"]) {
+					idx = i
+				}
+			}
+			if c.IsInvoke() {
+				idx--
+			}
+			if idx < 0 || idx >= len(c.Args) || (arg != nil && arg != c.Args[idx]) {
+				return v
+			}
+			arg = c.Args[idx]
+		}
+		v = arg
+	}
+	return v
 }
 
 // ownSlice: the slice value can only refer to backing arrays allocated by the function that computes it
